@@ -22,7 +22,9 @@ from deepproto.proto.tracepoint.v1.tracepoint_pb2 import TracePointConfig, Metri
 PATH, LINE = 'c17_host.py', 4
 TYPES = ['counter', 'gauge', 'histogram', 'summary']
 EXPR_KINDS = {'unset': None, 'int': 'n', 'float': 'f', 'bool': 'b', 'numstr': 'ns', 'nonnum': 's', 'failing': '1/0',
-              'arith': 'n * 2 + G', 'none': 'nothing', 'list': 'lst', 'raises_base': 'boom_base()'}
+              'arith': 'n * 2 + G', 'none': 'nothing', 'list': 'lst', 'raises_base': 'boom_base()',
+              # an int no float can hold (float() raises OverflowError): not a number the processors can be given
+              'hugeint': 'G ** 400'}
 LABEL_KINDS = ['none', 'static_str', 'static_int', 'static_float', 'static_bool', 'expr', 'expr_global', 'failing']
 class HostBase(BaseException):
     pass
